@@ -33,11 +33,13 @@ Undef  == [k |-> "undef", n |-> 0]      \* declared, value undefined (`var g;` o
 \* limits, and the current-VM pointer (TRUE while an eval of this context is running)
 NewCtx(lim) == [globals |-> [nm \in Names |-> Absent],
                 touched |-> [j \in 1..NT |-> 0],
-                inv     |-> 0,             \* the marker on the inventory target of this history (family I), 0 = pristine
+                inv     |-> 0,             \* the marker of this history: on its inventory target (family I), on the object made
+                                           \* from text (family T), the value the kept closure returns (family K); 0 = pristine
+                made    |-> 0,             \* 1: the global h exists (the object / closure / carrier value made by an earlier eval)
                 limits  |-> lim,
                 ptr     |-> FALSE,         \* the current-VM pointer designates a running evaluation
                 depth   |-> 0]             \* evaluations of this context in progress (an exposed callable may re-enter)
-Core(cs) == [globals |-> cs.globals, touched |-> cs.touched, inv |-> cs.inv]    \* everything that may carry over
+Core(cs) == [globals |-> cs.globals, touched |-> cs.touched, inv |-> cs.inv, made |-> cs.made]    \* everything that may carry over
 
 BaseEvalKinds == {"defvar", "deffun", "assign", "delete",
               "mut_objproto", "mut_math", "mut_arrproto", "mut_strctor", "mut_errproto",
@@ -48,7 +50,25 @@ RedeclKinds == {"redecl", "redecl_f", "redecl_or", "redecl_dead", "redecl_ieval"
                 "redecl_newfn", "redecl_newfn_init", "redecl_throw"}
 \* family I: one object of the built-in object graph (the inventory target of the history, C12.tla) is modified
 InvKinds == {"inv_mut", "inv_del", "inv_throw", "inv_ieval", "inv_loop"}
-EvalKinds == BaseEvalKinds \cup RedeclKinds \cup InvKinds
+\* family T: an object is created at run time from text (new Function, Function(), indirect eval, RegExp from a string,
+\* JSON.parse, a literal in the program text) and kept in the global h.  Every creation yields a NEW object: nothing written
+\* to an earlier object made from the same text - in this or in any other context - is visible on it (tx_make).  When the
+\* target of the history is an intrinsic of the context reached THROUGH the made object (its prototype chain), making the
+\* object again leaves the marker alone (tx_makei).  tx_mut writes the marker.
+TextKinds == {"tx_make", "tx_makei", "tx_mut"}
+\* family K: a binding that is not a global but is kept alive by a closure in the global h (catch parameter, own name of a
+\* function expression, arguments object, local, parameter, bound argument / this).  kb_make creates binding + closure;
+\* kb_other / kb_other_err are later programs that create a binding of the same kind with another value (and end in an error)
+\* without touching h: the closure keeps reading its own binding.
+KeptKinds == {"kb_make", "kb_other", "kb_other_err"}
+\* family V: a value made by one eval (array, function, closure, bound function, regex, object with accessor, native method
+\* value ...) is kept in the global h and USED by later evals with a script callback, under every behaviour of the later eval
+\* that depends on the interpreter instance running it: its own exception handlers (cv_catch at program level, cv_catchfn
+\* inside a function), its own time budget (cv_work: more than one clock poll of work, after any amount of time has passed
+\* since earlier evals), and after earlier uses that ended in an error inside the callback (cv_throw, cv_loop, cv_mem).
+CarryKinds == {"cv_make", "cv_use", "cv_catch", "cv_catchfn", "cv_throw", "cv_loop", "cv_work", "cv_mem"}
+CarryUseKinds == CarryKinds \ {"cv_make"}
+EvalKinds == BaseEvalKinds \cup RedeclKinds \cup InvKinds \cup TextKinds \cup KeptKinds \cup CarryKinds
 HostKinds == {"set", "get"}
 BaseKinds == BaseEvalKinds \cup HostKinds
 Kinds == EvalKinds \cup HostKinds
@@ -64,8 +84,10 @@ ETouch(j, x)  == [e |-> "touch", nm |-> "", av |-> Absent, tj |-> j, tv |-> x]
 EEnter == [e |-> "enter", nm |-> "", av |-> Absent, tj |-> 0, tv |-> 0]
 ELeave == [e |-> "leave", nm |-> "", av |-> Absent, tj |-> 0, tv |-> 0]
 EInv(x) == [e |-> "inv", nm |-> "", av |-> Absent, tj |-> 0, tv |-> x]
+EMade == [e |-> "made", nm |-> "", av |-> Absent, tj |-> 0, tv |-> 0]      \* the global h now holds the value made
 ApplyEff(cs, ef) ==
   CASE ef.e = "glob"  -> [cs EXCEPT !.globals[ef.nm] = ef.av]
+    [] ef.e = "made"  -> [cs EXCEPT !.made = 1]
     [] ef.e = "touch" -> [cs EXCEPT !.touched[ef.tj] = ef.tv]
     [] ef.e = "inv"   -> [cs EXCEPT !.inv = ef.tv]
     [] ef.e = "enter" -> [cs EXCEPT !.depth = cs.depth + 1, !.ptr = TRUE]
@@ -74,7 +96,9 @@ RECURSIVE ApplyEffs(_, _)
 ApplyEffs(cs, efs) == IF efs = <<>> THEN cs ELSE ApplyEffs(ApplyEff(cs, Head(efs)), Tail(efs))
 
 \* the statement "assignment to an undeclared identifier" is not generated (DESIGN 4.4 item 1)
-Guard(kd, cs) == kd # "assign" \/ cs.globals["g"].k # "absent"
+\* nor is a use of h before an eval has made it (a ReferenceError: nothing to learn)
+Guard(kd, cs) == /\ kd # "assign" \/ cs.globals["g"].k # "absent"
+                 /\ kd \in CarryUseKinds \cup {"tx_mut"} => cs.made = 1
 
 \* Does recursion hit the memory limit before the time limit can fire?  The VM polls the clock every
 \* POLL instructions; a frame costs FRAME bytes and the recursive snippet spends at most CALLCOST
@@ -83,6 +107,12 @@ POLL == 1000
 FRAME == 200
 CALLCOST == 6
 MemFirst(lim) == (lim.m \div FRAME + 2) * CALLCOST < POLL
+\* cv_work: the callback spends more than one clock poll but less than WORKMAX instructions in all (the driver calibrates
+\* the loop count and reports the steps; C12!TraceNext rejects a measurement outside the window as machinery).  The only
+\* poll happens at instruction POLL of the eval, when between POLL and WORKMAX ticks of ITS OWN budget are spent - however
+\* much virtual time passed between the evals of the history (C12!Gap).
+WORKMAX == 1400
+WorkOutcome(lim) == IF lim.t > WORKMAX THEN {"value"} ELSE IF lim.t < POLL THEN {"timelimit"} ELSE {"value", "timelimit"}
 
 DontCare == -99
 \* results are small integers: n >= 1 the number n, 0 = None (undefined/null/absent), DontCare = not judged
@@ -131,6 +161,27 @@ Prog(kd, x, cs) ==
        [] kd = "inv_throw" -> P(<<EInv(x)>>, [os |-> {"jserror"}, r |-> DontCare])
        [] kd = "inv_ieval" -> P(<<EInv(x)>>, val(DontCare))                    \* through indirect eval
        [] kd = "inv_loop"  -> P(<<EInv(x)>>, [os |-> {"timelimit"}, r |-> DontCare])
+       \* ---- family T:  var h; (function(){ var hp = h; h = <form>; return hp === h ? 1 : 2 })()  : a new object (result 2),
+       \*      pristine (marker 0) whatever was written to an object made from the same text before, here or elsewhere
+       [] kd = "tx_make"   -> P(<<EMade, EInv(0)>>, val(2))
+       [] kd = "tx_makei"  -> P(<<EMade>>, val(2))                             \* the marker sits on an intrinsic: it stays
+       [] kd = "tx_mut"    -> P(<<EInv(x)>>, val(DontCare))                    \* <path from h>.<marker> = x
+       \* ---- family K:  var h; <binding with value x, closure over it assigned to h>  /  <binding of the same kind, value x>
+       [] kd = "kb_make"      -> P(<<EMade, EInv(x)>>, val(DontCare))
+       [] kd = "kb_other"     -> P(<<>>, val(DontCare))
+       [] kd = "kb_other_err" -> P(<<>>, [os |-> {"jserror"}, r |-> DontCare])
+       \* ---- family V:  var h = <carrier>  /  var g; <use of h with a callback that first does g = x and then ...>
+       [] kd = "cv_make"    -> P(<<EMade>>, val(DontCare))
+       [] kd = "cv_use"     -> P(Declare("g", cs) \o <<EGlob("g", Num(x))>>, val(DontCare))     \* ... returns
+       \* var r = 1; try { use; r = 2 } catch (e) { r = 3 } r : the callback throws, the handler of THIS eval catches it
+       [] kd = "cv_catch"   -> P(Declare("g", cs) \o <<EGlob("g", Num(x))>>, val(3))
+       [] kd = "cv_catchfn" -> P(Declare("g", cs) \o <<EGlob("g", Num(x))>>, val(3))            \* the same inside a function
+       [] kd = "cv_throw"   -> P(Declare("g", cs) \o <<EGlob("g", Num(x))>>, [os |-> {"jserror"}, r |-> DontCare])
+       \* try { use } catch (e) {} with a callback that loops / recurses for ever: limit errors are not catchable
+       [] kd = "cv_loop"    -> P(Declare("g", cs) \o <<EGlob("g", Num(x))>>, [os |-> {"timelimit"}, r |-> DontCare])
+       [] kd = "cv_mem"     -> P(Declare("g", cs) \o <<EGlob("g", Num(x))>>,
+                                 [os |-> IF MemFirst(cs.limits) THEN {"memlimit"} ELSE {"memlimit", "timelimit"}, r |-> DontCare])
+       [] kd = "cv_work"    -> P(Declare("g", cs) \o <<EGlob("g", Num(x))>>, [os |-> WorkOutcome(cs.limits), r |-> DontCare])
 
 \* atomic meaning of one event: post-state, acceptable outcome classes, result
 RunEvent(cs, kd, x) ==
@@ -145,12 +196,16 @@ TwinKind(kd) == CASE kd \in {"throw", "loop", "recurse"} -> "defvar"
                   [] kd = "ieval_loop" -> "ieval"
                   [] kd = "redecl_throw" -> "redecl"
                   [] kd \in {"inv_throw", "inv_loop"} -> "inv_mut"
+                  [] kd = "kb_other_err" -> "kb_other"
+                  [] kd \in {"cv_throw", "cv_loop", "cv_mem", "cv_work"} -> "cv_use"
                   [] OTHER -> kd
-IsErrorKind(kd) == kd \in {"throw", "loop", "recurse", "syntax", "ieval_loop", "redecl_throw", "inv_throw", "inv_loop"}
+IsErrorKind(kd) == kd \in {"throw", "loop", "recurse", "syntax", "ieval_loop", "redecl_throw", "inv_throw", "inv_loop",
+                           "kb_other_err", "cv_throw", "cv_loop", "cv_mem", "cv_work"}
 
 \* the projection the driver probes (checks/c12_driver.py: probe()):
 \*  <<get g, typeof g, eval g, get f, typeof f, f(), zo, zm, za, zs, ze, pointer clear, unexpected global names,
-\*    g can be read (declared), f can be read, marker on the inventory target of the history>>
+\*    g can be read (declared), f can be read, marker of the history (inventory target / object made from text / value
+\*    returned by the kept closure), the global h exists>>
 FnMark == -4
 Observe(cs) ==
   LET gv == cs.globals["g"]  fv == cs.globals["f"]
@@ -162,8 +217,9 @@ Observe(cs) ==
        IF fv.k = "fn" THEN fv.n ELSE 0>>
      \o [j \in 1..NT |-> cs.touched[j]]
      \o <<IF cs.ptr THEN 0 ELSE 1, 0>>
-     \o <<IF gv.k = "absent" THEN 0 ELSE 1, IF fv.k = "absent" THEN 0 ELSE 1, cs.inv>>
-ObsLen == 11 + NT
+     \o <<IF gv.k = "absent" THEN 0 ELSE 1, IF fv.k = "absent" THEN 0 ELSE 1, cs.inv, cs.made>>
+ObsLen == 12 + NT
+MadeIx == 12 + NT
 DeclIx(nm) == IF nm = "g" THEN 9 + NT ELSE 10 + NT
 InvIx == 11 + NT
 \* adopt an observed projection as the model state (total trace validation: resync and keep going)
@@ -173,6 +229,7 @@ Adopt(cs, ob) ==
                                             ELSE IF ob[DeclIx(nm)] = 1 THEN Undef ELSE Absent],
              !.touched = [j \in 1..NT |-> IF ob[6 + j] >= 0 THEN ob[6 + j] ELSE 0],
              !.inv = IF ob[InvIx] >= 0 THEN ob[InvIx] ELSE 0,
+             !.made = IF ob[MadeIx] = 1 THEN 1 ELSE 0,
              !.ptr = FALSE]
 
 \* ============================ Part 2: the state machine ===================================
@@ -294,6 +351,34 @@ EvalInvIndirect(c) == /\ pc.m = "idle"
                       /\ \E x \in Vals : Begin(c, "inv_ieval", x)
 EvalInvLoop(c) == /\ pc.m = "idle"
                   /\ \E x \in Vals : Begin(c, "inv_loop", x)
+EvalTxMake(c) == /\ pc.m = "idle"
+                 /\ Begin(c, "tx_make", 0)
+EvalTxMakeI(c) == /\ pc.m = "idle"
+                  /\ Begin(c, "tx_makei", 0)
+EvalTxMut(c) == /\ pc.m = "idle"
+                /\ \E x \in Vals : Begin(c, "tx_mut", x)
+EvalKbMake(c) == /\ pc.m = "idle"
+                 /\ \E x \in Vals : Begin(c, "kb_make", x)
+EvalKbOther(c) == /\ pc.m = "idle"
+                  /\ \E x \in Vals : Begin(c, "kb_other", x)
+EvalKbOtherErr(c) == /\ pc.m = "idle"
+                     /\ \E x \in Vals : Begin(c, "kb_other_err", x)
+EvalCvMake(c) == /\ pc.m = "idle"
+                 /\ Begin(c, "cv_make", 0)
+EvalCvUse(c) == /\ pc.m = "idle"
+                /\ \E x \in Vals : Begin(c, "cv_use", x)
+EvalCvCatch(c) == /\ pc.m = "idle"
+                  /\ \E x \in Vals : Begin(c, "cv_catch", x)
+EvalCvCatchFn(c) == /\ pc.m = "idle"
+                    /\ \E x \in Vals : Begin(c, "cv_catchfn", x)
+EvalCvThrow(c) == /\ pc.m = "idle"
+                  /\ \E x \in Vals : Begin(c, "cv_throw", x)
+EvalCvLoop(c) == /\ pc.m = "idle"
+                 /\ \E x \in Vals : Begin(c, "cv_loop", x)
+EvalCvWork(c) == /\ pc.m = "idle"
+                 /\ \E x \in Vals : Begin(c, "cv_work", x)
+EvalCvMem(c) == /\ pc.m = "idle"
+                /\ \E x \in Vals : Begin(c, "cv_mem", x)
 HostStep(c, kd, x) ==
   /\ pc.m = "idle" /\ kd \in MCKinds
   /\ ctx' = [ctx EXCEPT ![c] = RunEvent(ctx[c], kd, x).st]
@@ -313,6 +398,9 @@ Next == \/ Effect \/ Exit
              \/ EvalRedecl(c) \/ EvalRedeclF(c) \/ EvalRedeclOr(c) \/ EvalRedeclDead(c) \/ EvalRedeclIndirect(c)
              \/ EvalRedeclNewFn(c) \/ EvalRedeclNewFnInit(c) \/ EvalRedeclThrow(c)
              \/ EvalInvMut(c) \/ EvalInvDel(c) \/ EvalInvThrow(c) \/ EvalInvIndirect(c) \/ EvalInvLoop(c)
+             \/ EvalTxMake(c) \/ EvalTxMakeI(c) \/ EvalTxMut(c) \/ EvalKbMake(c) \/ EvalKbOther(c) \/ EvalKbOtherErr(c)
+             \/ EvalCvMake(c) \/ EvalCvUse(c) \/ EvalCvCatch(c) \/ EvalCvCatchFn(c) \/ EvalCvThrow(c) \/ EvalCvLoop(c)
+             \/ EvalCvWork(c) \/ EvalCvMem(c)
              \/ Set(c) \/ Get(c)
 Spec == Init /\ [][Next]_cmvars
 Bound == evn < MAXN \/ (evn = MAXN /\ pc.m = "idle")      \* CONSTRAINT: all histories up to MAXN events
@@ -321,7 +409,7 @@ Bound == evn < MAXN \/ (evn = MAXN /\ pc.m = "idle")      \* CONSTRAINT: all his
 TypeOK ==
   /\ \A c \in Ctxs : /\ \A nm \in Names : ctx[c].globals[nm].k \in {"absent", "undef", "num", "fn"}
                      /\ \A j \in 1..NT : ctx[c].touched[j] \in Nat
-                     /\ ctx[c].inv \in Nat
+                     /\ ctx[c].inv \in Nat /\ ctx[c].made \in {0, 1}
                      /\ ctx[c].limits = LimitsOf(c)
   /\ pc.m \in {"idle", "run"} /\ evn \in 0..(MAXN + 1) /\ actor \in 0..NC
 \* the current-VM pointer is clear after every exit (and belongs to the running eval only)
@@ -352,6 +440,22 @@ AtomicAgrees == [][(pc.m = "run" /\ pc'.m = "idle") => ctx'[pc.c] = RunEvent(pc.
 RedeclKeeps == [][(pc.m = "run" /\ pc'.m = "idle" /\ pc.kind \in RedeclKinds) =>
                     \A nm \in Names : /\ pc.start.globals[nm].k \in {"num", "fn"} => ctx'[pc.c].globals[nm] = pc.start.globals[nm]
                                       /\ pc.kind \in {"redecl_newfn", "redecl_newfn_init"} => ctx'[pc.c].globals[nm] = pc.start.globals[nm]]_cmvars
+\* an object made from text is NEW: pristine whatever marker an earlier object made from the same text carried (in this
+\* context: pc.start.inv; in another one: Frame), and no other event resets a marker (family T)
+FreshObjects == [][(pc.m = "run" /\ pc'.m = "idle") =>
+                     /\ pc.kind = "tx_make" => ctx'[pc.c].inv = 0 /\ ctx'[pc.c].made = 1
+                     /\ pc.kind = "tx_makei" => ctx'[pc.c].inv = pc.start.inv /\ ctx'[pc.c].made = 1]_cmvars
+\* a later program that creates a binding of the same kind (also one that ends in an error) does not disturb the binding
+\* a closure of an earlier program keeps alive (family K)
+KeptBindings == [][(pc.m = "run" /\ pc'.m = "idle" /\ pc.kind \in {"kb_other", "kb_other_err"}) =>
+                     Core(ctx'[pc.c]) = Core(pc.start)]_cmvars
+\* what a later eval does with a carried value depends on the global state only, not on how earlier evals ended: every
+\* use has the outcome classes and the result it has on the error-free twin (family V; Recovery makes the states equal)
+OwnInterpreter == pc.m = "idle" =>
+                    \A c \in Ctxs : \A kd \in CarryKinds \cap MCKinds :
+                       /\ Guard(kd, ctx[c]) = Guard(kd, twin[c])
+                       /\ Guard(kd, ctx[c]) => /\ RunEvent(ctx[c], kd, 1).os = RunEvent(twin[c], kd, 1).os
+                                               /\ RunEvent(ctx[c], kd, 1).r = RunEvent(twin[c], kd, 1).r
 \* a syntax error has no effect at all
 SyntaxNoEffect == [][last' = "syntax" /\ evn' = evn + 1 => ctx' = ctx]_cmvars
 =============================================================================
